@@ -284,7 +284,7 @@ impl World {
             let mut items: Vec<(String, Bytes, Option<Bytes>, bool)> = Vec::new();
             let mut revoked: Vec<u64> = Vec::new();
 
-            let mut place = |items: &mut Vec<(String, Bytes, Option<Bytes>, bool)>,
+            let place = |items: &mut Vec<(String, Bytes, Option<Bytes>, bool)>,
                              name: String, bytes: Bytes, fault: Fault| {
                 match fault {
                     Fault::Missing => items.push((name, bytes, None, true)),
